@@ -11,6 +11,7 @@ NOTE_S = "reals stand in for floats (IEEE rounding / float32 storage outside the
 CHECKS = {
     "C01": dict(engine="S", text="bounded symbolic execution of the real accessor methods with every spectral bin a symbolic real >= 0 on a fixed family of grids; z3 proves impl == defining integral for all such spectra or returns a spectrum that is replayed in floats", ref="6/C01"),
     "C02": dict(engine="S", text="the real _peak / xrstats / npstats peak code is executed on symbolic 1-D and 2-D spectra (every path = one ordering pattern of the bins); on every path z3 proves the returned period/frequency/direction/spread/alpha/gamma is the one of a highest interior strict local maximum (NaN iff none), with the parabola vertex strictly between the neighbours", ref="6/C02"),
+    "C08": dict(engine="S", text="regrid_spec / interp / rotate executed on symbolic spectra with the xarray interpolation replaced by a differential-tested 1-D linear contract; z3 proves the output equals the periodic-linear reference bin by bin (exact on nodes, both seam neighbours used), non-negativity, zero above fmax, Hs conservation under maintain_m0, whole-bin rotation == circular shift", ref="6/C08"),
     "C09": dict(engine="S", text="PTM4 with symbolic wind speed (the boundary celerity = wind component is a satisfying assignment, not a sampled accident), bbox with all box limits symbolic, split/PTM5 on listed on- and off-node cutoffs: z3 proves every bin is assigned by the stated rule, partitions are disjoint and sum to the input, overlapping boxes raise", ref="6/C09"),
     "C10": dict(engine="S", text="relational symbolic runs of the real statistics on S and kS (k symbolic for polynomial statistics), on S and S with relabelled directions, plus Cauchy-Schwarz bounds proven as generic lemmas and instantiated on the implementation's outputs, and scale_by_hs with symbolic coefficients and range limits", ref="6/C10"),
     "C16": dict(engine="S", text="the real smooth_spec (xarray rolling mean) is executed on symbolic spectra for every window/grid in the bound; z3 proves each output bin equals the circular window mean (or lies within the neighbourhood's min/max at the edges), identity for window 1, commutation with circular shifts; even windows must raise", ref="6/C16"),
